@@ -28,7 +28,7 @@ REQUIRED_COUNTERS = {"histories": {"quick": 1500, "thorough": 30000},
                      "helper_modules_imported_during_scan": {"quick": 100, "thorough": 2000},
                      "late_module_injections": {"quick": 200, "thorough": 4000},
                      "schedules_2threads": {"quick": 300, "thorough": 5000},
-                     "schedules_random": {"quick": 100, "thorough": 2000},
+                     "schedules_random": {"quick": 40, "thorough": 1000},
                      "schedules_with_overlap": {"quick": 200, "thorough": 4000},
                      "raising_glue_cases": {"quick": 100, "thorough": 2000}}
 SHARD_TIMEOUT = {"quick": 400, "thorough": 5400}
